@@ -199,6 +199,9 @@ func c14Scheduled(c *ctx, r Rng) {
 	cfg := snapCfg(r)
 	env := NewEnv(cfg)
 	env.Meta.(*FaultMeta).iterFaults = true
+	env.Meta.(*FaultMeta).yieldGate = true
+	lazyGC := r.Chance(0.3)
+	env.Data.DeferTombstone = lazyGC
 	sr := &snapRun{env: env, sent: map[int]bool{}, acked: map[int]bool{}, contents: map[string][]byte{}}
 	defer env.Stop()
 	capture := func() {
@@ -219,7 +222,7 @@ func c14Scheduled(c *ctx, r Rng) {
 	}
 	capture()
 	env.Data.Mark("act-end", "")
-	parkOp := pick(r, []string{"iter", "open", "open", "read", "read"})
+	parkOp := pick(r, []string{"iter", "yield", "yield", "open", "open", "read", "read"})
 	parkK := 1 + r.IntN(5)
 	pk := newParker(parkOp, parkK)
 	env.Data.Gate = func(op, file string) {
@@ -234,7 +237,15 @@ func c14Scheduled(c *ctx, r Rng) {
 	}
 	env.Data.Mark("qbegin", "")
 	done := make(chan QueryOut, 1)
-	go func() { done <- env.Query(&bs.Query{}) }()
+	q := &bs.Query{}
+	qdesc := "match-all"
+	if r.Chance(0.5) {
+		// every row carries "pad":"xxxx": a bloom-conditioned query with the same answer, which goes
+		// through the filter stage (block filter reads) as well
+		q = bs.NewQuery().Token("xxxx").Build()
+		qdesc = "token"
+	}
+	go func() { done <- env.Query(q) }()
 	var out QueryOut
 	finished := false
 	select {
@@ -267,16 +278,24 @@ func c14Scheduled(c *ctx, r Rng) {
 	}
 	env.Data.Gate = nil
 	capture()
-	sched := fmt.Sprintf("park=%s#%d parked=%v", parkOp, parkK, !finished)
+	sched := fmt.Sprintf("park=%s#%d parked=%v query=%s lazyGC=%v", parkOp, parkK, !finished, qdesc, lazyGC)
 	c.r.Hit("park." + parkOp + b2s(!finished))
 	replay := map[string]any{"schedule": sched, "history": sr.desc, "config": fmt.Sprintf("rowgroup=%d mergeMax=%d", cfg.MaxRowGroupRows, cfg.MaxFilesToMergePerOperation)}
 	resultMonitor(c, "MemoryMetaStore "+sched, out, ackedBefore, sr.sent, "", replay)
 
+	if lazyGC {
+		// the model's data store deletes at once; with deferred deletion only the property itself is checked
+		c.r.Case(true, sched+fmt.Sprint(sr.desc))
+		c.r.Hit("lazy-gc")
+		return
+	}
 	// replay on the Lean model
 	var t toks
 	n := 0
 	inAct := false
 	seenQ := false
+	_ = inAct
+	mainGor := goid() // flushes are requested and merges run entirely on this goroutine; the query's calls are not
 	for _, cl := range env.Data.Log() {
 		switch cl.Op {
 		case "act-begin":
@@ -319,12 +338,12 @@ func c14Scheduled(c *ctx, r Rng) {
 			t.add("tomb").n(fileNum(cl.File))
 			n++
 		case "iter":
-			if seenQ && !inAct {
+			if seenQ && cl.Gor != mainGor {
 				t.add("qs")
 				n++
 			}
 		case "open":
-			if seenQ && !inAct {
+			if seenQ && cl.Gor != mainGor {
 				t.add("qo").n(fileNum(cl.File))
 				n++
 			}
